@@ -11,6 +11,7 @@ pub mod layout;
 mod emit;
 mod family;
 mod lev;
+mod native;
 mod refdec;
 mod refenc;
 
@@ -43,6 +44,9 @@ fn main() {
     let fam = family::family(seed);
     let mut index = emit::Index::default();
     let built = emit::build_and_crosscheck(&fam, &mut index);
+    if want("C07") { native::write_schedules(&fam, &mut index); }
+    if want("C11") { native::fault_enumeration(&fam, &mut index); }
+    if want("C06") { native::ordering_front_ends(&mut index); }
     let src = emit::emit_rust(&built, seed, &tier, &want, &mut index);
     fs::write(format!("{}/mod.rs", out), src).unwrap();
     if want("C17") {
